@@ -65,6 +65,10 @@ def make_files(ctx, fileset, n, skew, k):
 	return paths
 
 
+EXC_NAMES = ['timeout', 'eio', 'estale', 'interrupted', 'blocking', 'permission', 'memory', 'eof', 'stopiteration', 'cancelled', 'futures_timeout',
+             'broken_pool_lookalike', 'keyerror', 'assertion', 'unicode', 'value']
+
+
 def make_fault(ctx, ftype):
 	d = ctx.fresh_dir('c13fault')
 	if ftype == 'missing':
@@ -114,6 +118,8 @@ def run_cli_create(case, ctx):
 	n = case['n']
 	paths = list(make_files(ctx, case['fileset'], n, case['skew'], k))
 	fault = case['fault']
+	if fault is not None and fault['type'].startswith('exc:'):
+		fault = dict(fault, type='missing')        # injected exception classes need the library interface
 	if fault is not None:
 		paths[fault['pos'] % n] = make_fault(ctx, fault['type'])
 	out = ctx.fresh_path('.gs')
@@ -189,15 +195,24 @@ def run_case(case, ctx):
 	n = case['n']
 	paths = list(make_files(ctx, case['fileset'], n, case['skew'], k))
 	fault = case['fault']
+	injected = None
 	if fault is not None:
 		pos = fault['pos'] % n
-		paths[pos] = make_fault(ctx, fault['type'])
+		if fault['type'].startswith('exc:'):
+			# reading this file fails with a chosen exception class at a chosen moment (injected at SequenceFile.parse)
+			injected = fault['type'].split(':')
+		else:
+			paths[pos] = make_fault(ctx, fault['type'])
 	odd = case.get('odd') if fault is None else None
 	if odd is not None:
 		paths[odd['pos'] % n] = make_fault(ctx, odd['type'])
 	files = SequenceFile.from_paths(paths, 'fasta', 'auto')
 	if case.get('explicit_compression') and fault is None:
 		files = [SequenceFile(p_, 'fasta', 'gzip' if open(p_, 'rb').read(2) == b'\x1f\x8b' else None) for p_ in paths]
+	if injected is not None:
+		from vlib.faultfile import FaultyFile
+		files = list(files)
+		files[pos] = FaultyFile(paths[pos], injected[1], injected[2])
 	if case.get('files_as_tuple'):
 		files = tuple(files)
 	if case.get('poison'):
@@ -213,7 +228,7 @@ def run_case(case, ctx):
 	expect_fail = False
 	for i, f in enumerate(files):
 		ck = ('c13sig', str(f.path), k)
-		if ck in ctx.cache and not case.get('poison'):
+		if ck in ctx.cache and not case.get('poison') and not (injected is not None and i == pos):
 			singles.append(ctx.cache[ck])
 			continue
 		try:
@@ -353,7 +368,8 @@ def gen_case(draw, tier):
 	n = draw(st.integers(1, 8))
 	mode = draw(st.sampled_from(['ordered', 'threads', 'processes', 'instant', 'none', 'ordered', 'threads', 'cli_create', 'reused_threads']))
 	fault = draw(st.one_of(st.none(), st.none(), st.builds(lambda p, t: {'pos': p, 'type': t}, st.integers(0, 7),
-	                                                        st.sampled_from(['missing', 'directory', 'truncated_gzip', 'bad_utf8', 'junk', 'text']))))
+	                                                        st.one_of(st.sampled_from(['missing', 'directory', 'truncated_gzip', 'bad_utf8', 'junk', 'text']),
+	                                                                  st.builds(lambda e, ph: f'exc:{e}:{ph}', st.sampled_from(EXC_NAMES), st.sampled_from(['call', 'enter', 'mid']))))))
 	return {
 		'kind': 'sched', 'fileset': draw(st.integers(100, 140)), 'n': n, 'mode': mode,
 		'perm': draw(st.permutations(list(range(n)))), 'k': draw(st.sampled_from([6, 5, 8])),
